@@ -95,7 +95,13 @@ class BrokerState:
             for waiter in sorted(
                 worker_state.collected_waiters, key=lambda x: x.waiter_id
             ):
-                if waiter.has_requirements and not waiter.requirements:
+                if (
+                    waiter.has_requirements
+                    and not waiter.requirements
+                    and waiter.resolved_event is None
+                    and not waiter.timed_out
+                ):
+                    # a resolved or timed-out waiter already has its replay queued
                     commands.append(
                         TickAddEvent(event=waiter.event, step_name=step_name)
                     )
